@@ -28,6 +28,12 @@ CLAIMED["C12"] = ("other",
     "Trusted: gin writers send the status given; effect set of DESIGN Appendix A2 is complete (checked: every write to a ChfUe accounting cell is found by type). Not decided: body contents beyond echoed members; recharge for unknown subscriber (not demanded).",
     "DESIGN.md §4 C12")
 
+CLAIMED["C09"] = ("other",
+    "Eraser-style lockset analysis on go/ssa (must-locksets with interprocedural summaries and entry locksets over the CHA call graph), lock-order graph, release-on-all-exits, check-then-act rule",
+    "Decides race-freedom and deadlock-freedom clauses for all interleavings without enumerating any: every shared mutable field of a mutex-owning struct (computed: post-publication write reachable from a request entry point; map/slice operations count) has a non-empty intersection of the must-locksets of all its request-reachable accesses, restricted to locks that can protect it (same owner struct or a singleton's lock - a per-subscriber lock does not protect global state); every lock taken in request code is released on every return; the acquired-while-held graph (through calls) is acyclic with no self edge; no unlocked Load...Store on the subscriber pool. Serial equivalence of effects across components is NOT decided.",
+    "Assumes one request touches one subscriber context (lock classes, not instances); sync.Map, channels, sm.Client/StateMachine, idgenerator internally synchronised; objects reachable through ue.Cdr are not tracked field-sensitively.",
+    "DESIGN.md §4 C09")
+
 # id -> reason, for properties not (yet) claimed
 NOT_APPLICABLE = {
 }
